@@ -5,9 +5,11 @@
 package xmlinfo
 
 import (
+	"bytes"
 	"encoding/xml"
 	"fmt"
 	"io"
+	"regexp"
 	"strconv"
 	"strings"
 )
@@ -18,11 +20,11 @@ type Attr struct {
 }
 
 type Event struct {
-	Kind  string // start end pi doctype text comment
-	Name  string // element name / pi target
-	Data  string // pi data, doctype text (whitespace collapsed), text (references expanded), comment
-	Attrs []Attr
-	CDATA []string // for text events: the exact contents of CDATA sections inside this run
+	Kind        string // start end pi doctype text comment
+	Name        string // element name / pi target
+	Data        string // pi data, doctype text (whitespace collapsed), text (references expanded), comment
+	Attrs       []Attr
+	CDATA       []string // for text events: the exact contents of CDATA sections inside this run
 	SelfClosing bool
 }
 
@@ -339,4 +341,86 @@ func canonDoctype(d string) string {
 		last = c
 	}
 	return sb.String()
+}
+
+var reXMLName = regexp.MustCompile(`^[A-Za-z_][-A-Za-z0-9_.]*$`)
+
+// doctypedecl with an optional external id and an internal subset of entity declarations and comments only
+var reDoctype = regexp.MustCompile(`^DOCTYPE[ \t\r\n]+[A-Za-z_][-\w.]*([ \t\r\n]+(SYSTEM[ \t\r\n]+("[^"]*"|'[^']*')|PUBLIC[ \t\r\n]+("[^"]*"|'[^']*')[ \t\r\n]+("[^"]*"|'[^']*')))?[ \t\r\n]*(\[([ \t\r\n]|<!(ENTITY|ELEMENT|ATTLIST|NOTATION)[ \t\r\n]+([^<>"']|"[^"<]*"|'[^'<]*')*>|<!--([^-]|-[^-])*-->)*\][ \t\r\n]*)?$`)
+
+// Document is encoding/xml in strict mode plus the document-level rules it does not enforce: exactly one
+// root element, no character data outside it, the XML declaration only at the very start, and <! only as
+// comment, CDATA or a DOCTYPE before the root.
+func Document(b []byte, entities map[string]string) error {
+	d := xml.NewDecoder(bytes.NewReader(b))
+	d.Strict = true
+	d.CharsetReader = func(label string, input io.Reader) (io.Reader, error) { return input, nil }
+	d.Entity = entities
+	roots, depth, first := 0, 0, true
+	for {
+		off := d.InputOffset()
+		tok, err := d.RawToken()
+		if err == io.EOF {
+			if roots != 1 || depth != 0 {
+				return fmt.Errorf("%d root elements, depth %d at the end", roots, depth)
+			}
+			break
+		}
+		if err != nil {
+			return err
+		}
+		switch tk := tok.(type) {
+		case xml.StartElement:
+			if depth == 0 {
+				roots++
+			}
+			depth++
+			if !reXMLName.MatchString(tk.Name.Local) || tk.Name.Space != "" && !reXMLName.MatchString(tk.Name.Space) {
+				return fmt.Errorf("element name %q:%q", tk.Name.Space, tk.Name.Local)
+			}
+			for _, a := range tk.Attr {
+				if !reXMLName.MatchString(a.Name.Local) || a.Name.Space != "" && !reXMLName.MatchString(a.Name.Space) {
+					return fmt.Errorf("attribute name %q:%q", a.Name.Space, a.Name.Local)
+				}
+			}
+		case xml.EndElement:
+			depth--
+			if depth < 0 {
+				return fmt.Errorf("end tag without start tag")
+			}
+		case xml.CharData:
+			if depth == 0 && len(bytes.TrimSpace(tk)) > 0 {
+				return fmt.Errorf("character data outside the root element")
+			}
+		case xml.ProcInst:
+			if strings.EqualFold(tk.Target, "xml") && (!first || off != 0) {
+				return fmt.Errorf("XML declaration not at the start")
+			}
+			if !reXMLName.MatchString(tk.Target) {
+				return fmt.Errorf("processing instruction target %q", tk.Target)
+			}
+			if e := int(off) + 2 + len(tk.Target); e < len(b) && !strings.ContainsRune(" \t\r\n?", rune(b[e])) {
+				return fmt.Errorf("no whitespace after the processing instruction target")
+			}
+		case xml.Directive:
+			if depth != 0 || roots != 0 || !reDoctype.Match(tk) {
+				return fmt.Errorf("markup declaration outside the prolog")
+			}
+		}
+		first = false
+	}
+	// second pass with Token() for tag matching and namespace checks
+	d = xml.NewDecoder(bytes.NewReader(b))
+	d.Strict = true
+	d.CharsetReader = func(label string, input io.Reader) (io.Reader, error) { return input, nil }
+	d.Entity = entities
+	for {
+		_, err := d.Token()
+		if err == io.EOF {
+			return nil
+		}
+		if err != nil {
+			return err
+		}
+	}
 }
